@@ -67,6 +67,11 @@ type jsRenderer struct {
 // nodes, chosen by hash), "always", "never".
 var jsTypeArrayStyle = "mixed"
 
+// jsNullBranchStyle switches the spelling of a nullable member written as a union with a null branch:
+// "last" (default: `anyOf: [T, {type: null}]`) or "mixed" (chosen by hash per member: null branch first or
+// last, `oneOf` instead of `anyOf` where T cannot accept null itself). A `default` stays inside the T branch.
+var jsNullBranchStyle = "last"
+
 func fnv32(s string) uint32 {
 	h := uint32(2166136261)
 	for i := 0; i < len(s); i++ {
@@ -144,7 +149,7 @@ func renderJSONSchema(d *Defs) renderOut {
 		kv("definitions", defs),
 	)
 	out.Text = doc.pretty() + "\n"
-	for _, k := range []string{"typeArray.nullable", "typeArray.union"} {
+	for _, k := range []string{"typeArray.nullable", "typeArray.union", "nullUnion.nullFirst", "nullUnion.oneOf"} {
 		if n := r.style[k]; n > 0 {
 			out.Style = append(out.Style, fmt.Sprintf("%s x%d", k, n))
 		}
@@ -293,7 +298,22 @@ func (r *jsRenderer) field(f Field) JV {
 	}
 	if f.Nullable {
 		// anyOf rather than oneOf: `null` may also satisfy T itself (any, const null-able unions)
-		return jObj(kv("anyOf", jArr(t, jObj(kv("type", jStr("null"))))))
+		key, null := "anyOf", jObj(kv("type", jStr("null")))
+		if jsNullBranchStyle == "mixed" {
+			h := (r.seed ^ (fnv32(f.Name) * 2654435761)) * 2246822519
+			switch f.Ty.Kind {
+			case SBool, SString, SInt, SNum, SEnumS, SEnumI, SArray, SDict, SStruct:
+				if (h>>20)%2 == 1 {
+					key = "oneOf"
+					r.style["nullUnion.oneOf"]++
+				}
+			}
+			if (h>>12)%2 == 1 {
+				r.style["nullUnion.nullFirst"]++
+				return jObj(kv(key, jArr(null, t)))
+			}
+		}
+		return jObj(kv(key, jArr(t, null)))
 	}
 	return t
 }
